@@ -1,5 +1,6 @@
 import BobEM.Lemmas.GmmEM
 import BobEM.Lemmas.Loop
+import BobEM.Props.C02
 
 /-!
 # C03 — GMM ML training never decreases the likelihood and stops by its stated rule
@@ -108,3 +109,47 @@ example : ∃ (_cfg : MlCfg 1 1 ℝ) (p : Params 1 1 ℝ) (xs : List (Fin 1 → 
     (∀ c, 0 < p.weights c) ∧ ∑ c, p.weights c ≤ 1 ∧ (∀ c d, 0 < p.variances c d) := by
   refine ⟨⟨true, true, true, 0, fun _ _ => 0⟩, ⟨fun _ => 1, fun _ _ => 0, fun _ _ => 1⟩,
     [fun _ => 1, fun _ => -1], by simp, by intro c; norm_num, by simp, by intro c d; norm_num⟩
+
+
+/-- moment matching: after one ML M-step that updates weights and means with no count floor active,
+the mixture mean `Σ_c w_c μ_c` is the sample mean; if the variances are updated too and no variance
+floor clamps, the mixture's second moment `Σ_c w_c (σ_c + μ_c²)` is the sample's second moment. A
+wrong M-step formula (a count used twice, a statistic of another component, a missing square) breaks
+one of the two identities even when training still converges to nearly the same fixed point. -/
+theorem C03_mstep_matches_moments (cfg : MlCfg (C+1) D ℝ) (p : Params (C+1) D ℝ) (xs : List (Fin D → ℝ))
+    (hm : cfg.updMeans = true) (hw : cfg.updWeights = true)
+    (hthr : 0 < cfg.countThr) (hcount : ∀ c, cfg.countThr ≤ (eStep p xs).n c) :
+    (∀ d, ∑ c, (mlMStep cfg p (eStep p xs) (xs.length : ℝ)).weights c
+              * (mlMStep cfg p (eStep p xs) (xs.length : ℝ)).means c d
+          = (xs.map fun x => x d).sum / xs.length) ∧
+    (cfg.updVars = true → (∀ c d, cfg.varFloor c d ≤ mlRawVar cfg p (eStep p xs) c d) →
+      ∀ d, ∑ c, (mlMStep cfg p (eStep p xs) (xs.length : ℝ)).weights c
+              * ((mlMStep cfg p (eStep p xs) (xs.length : ℝ)).variances c d
+                 + (mlMStep cfg p (eStep p xs) (xs.length : ℝ)).means c d
+                   * (mlMStep cfg p (eStep p xs) (xs.length : ℝ)).means c d)
+          = (xs.map fun x => x d * x d).sum / xs.length) := by
+  have hn : ∀ c, max ((eStep p xs).n c) cfg.countThr = (eStep p xs).n c := fun c => max_eq_left (hcount c)
+  have hlt : ∀ c, ¬ ((eStep p xs).n c < cfg.countThr) := fun c => not_lt.mpr (hcount c)
+  have hpos : ∀ c, (eStep p xs).n c ≠ 0 := fun c => (lt_of_lt_of_le hthr (hcount c)).ne'
+  obtain ⟨h1, h2⟩ := C02_moments_sum_to_data p xs
+  constructor
+  · intro d
+    rw [← h1 d, Finset.sum_div]
+    refine Finset.sum_congr rfl fun c _ => ?_
+    simp only [mlMStep, mlMeans, hm, hw, if_true, hn, hlt, if_false]
+    have := hpos c
+    field_simp
+  · intro hv hfl d
+    rw [← h2 d, Finset.sum_div]
+    refine Finset.sum_congr rfl fun c _ => ?_
+    have hraw : mlRawVar cfg p (eStep p xs) c d
+        = (eStep p xs).sumPxx c d / (eStep p xs).n c
+          - (eStep p xs).sumPx c d / (eStep p xs).n c * ((eStep p xs).sumPx c d / (eStep p xs).n c) := by
+      simp only [mlRawVar, mlMeans, hm, if_true, hn, hlt, if_false]; ring
+    have hmax := max_eq_right (hfl c d)
+    rw [hraw] at hmax
+    simp only [mlMStep, hv, hw, if_true, hlt, if_false, hmax, hraw]
+    simp only [mlMeans, hm, if_true, hn, hlt, if_false]
+    have := hpos c
+    field_simp
+    ring
